@@ -21,6 +21,8 @@ def run(ck, tier):
     F = factsmod.Facts("ws")
     from . import influence as _infl
     _infl.run(ck, F, 'C01')
+    from . import mustpass as _mp
+    _mp.run(ck, F, 'C01')
     from . import c01x
     c01x.run(ck, F)
     r9 = core.Renamed(ck, "C09.", "C01.")
